@@ -7,7 +7,7 @@ import CookModel.Side.Aisle
     src/parser/model.rs     `Modifiers::should_be_listed`
     src/ingredient_list.rs  `ScaledRecipe::{group_ingredients, group_cookware}`,
                             `IngredientList::{add_recipe, add_ingredient, categorize}`
-  AS REPAIRED by fixes/0003 (`categorize` merges into an existing common-name entry with
+  AS REPAIRED by fixes/0001-fix-categorize-… (`categorize` merges into an existing common-name entry with
   `GroupedQuantity::absorb` instead of overwriting it; DESIGN.md §8 item 8).  The code before the
   repair is `categorizeOrig` below, kept for the machine-checked witness of the defect.
 
@@ -149,6 +149,11 @@ def get? (m : BMap β) (k : Str) : Option β :=
   | [] => none
   | e :: rest => if e.1 = k then some e.2 else get? rest k
 
+/-- overwrite the value of the entry that `get?` finds -/
+def replace (k : Str) (v : β) : BMap β → BMap β
+  | [] => []
+  | e :: rest => if e.1 = k then (e.1, v) :: rest else e :: replace k v rest
+
 /-- put a new key at its place -/
 def insertSorted (k : Str) (v : β) : BMap β → BMap β
   | [] => [(k, v)]
@@ -161,7 +166,7 @@ def insertSorted (k : Str) (v : β) : BMap β → BMap β
     followed by a mutation, and the `Entry::{Vacant,Occupied}` match of the repaired `categorize` -/
 def upsert (k : Str) (f : Option β → β) (m : BMap β) : BMap β :=
   match m.get? k with
-  | some _ => m.map (fun e => if e.1 = k then (e.1, f (some e.2)) else e)
+  | some old => replace k (f (some old)) m
   | none => insertSorted k (f none) m
 
 end BMap
